@@ -153,7 +153,7 @@ impl KeyboardLayout for De105Key {
             KeyCode::Oem6 => {
                 if modifiers.is_altgr() {
                     DecodedKey::Unicode('~')
-                } else if modifiers.is_caps() {
+                } else if modifiers.is_shifted() {
                     DecodedKey::Unicode('*')
                 } else {
                     DecodedKey::Unicode('+')
@@ -168,14 +168,14 @@ impl KeyboardLayout for De105Key {
                 }
             }
             KeyCode::Oem1 => {
-                if modifiers.is_shifted() {
+                if modifiers.is_caps() {
                     DecodedKey::Unicode('Ö')
                 } else {
                     DecodedKey::Unicode('ö')
                 }
             }
             KeyCode::Oem3 => {
-                if modifiers.is_shifted() {
+                if modifiers.is_caps() {
                     DecodedKey::Unicode('Ä')
                 } else {
                     DecodedKey::Unicode('ä')
